@@ -291,9 +291,13 @@ func cmdCheck(args []string) {
 		return nil
 	}
 	excluded := []string{}
+	knownPrinted := map[string]bool{}
 	for _, r := range failed {
 		if k := isKnown(r.Name); k != nil {
-			fmt.Printf("KNOWN-FINDING: property=%s %s\n", prop, k.What)
+			if !knownPrinted[k.What] {
+				knownPrinted[k.What] = true
+				fmt.Printf("KNOWN-FINDING: property=%s %s\n", prop, k.What)
+			}
 			knownHit = append(knownHit, r.Name)
 			excluded = append(excluded, r.Name)
 			nObl-- // excluded from the proof claim, listed separately
@@ -423,7 +427,6 @@ type extraCheck struct {
 	Detail string
 }
 
-func (w *World) extraChecks(prop string) []extraCheck { return nil }
 
 // A bounded stand-in: a Go test run against the real function where a contract had to be ASSUMED because
 // the function is outside the verified subset. Labelled bounded in the evidence, never counted as proved.
